@@ -32,6 +32,7 @@ func theAuth() *authsvc.Service {
 }
 
 const (
+	testQueryKey = "querytokensigningkey-32-chars-ok"
 	key32a = "0123456789abcdef0123456789abcdef"
 	key32b = "fedcba9876543210fedcba9876543210"
 )
@@ -59,6 +60,7 @@ func binConfig(o gwOpts) gwproc.Config {
 		Set("Caps", "EnableClipboard", o.Redirect.Clipboard).Set("Caps", "EnableDrive", o.Redirect.Drive).
 		Set("Caps", "EnablePrinter", o.Redirect.Printer).Set("Caps", "EnablePort", o.Redirect.Port).Set("Caps", "EnablePnp", o.Redirect.Pnp).
 		Set("Caps", "DisableRedirect", o.Redirect.DisableAll).Set("Caps", "RedirectAll", o.Redirect.EnableAll)
+	c.Set("Security", "QueryTokenSigningKey", testQueryKey).Set("Security", "QueryTokenIssuer", "portal")
 	c.Set("Security", "PAATokenSigningKey", testSigningKey).Set("Security", "VerifyClientIp", o.VerifyIP)
 	return c
 }
